@@ -1008,6 +1008,13 @@ def c16(tier):
         inputs += gen.g_runs(F, rng, 30 if q else 400)
         inputs += gen.g_seams(F, rng)[:: 12 if q else 3]
         inputs += [r for r in gen.g_extremes(F, rng, big=3000) if r["tag"] != "G5:zero"][:: 4 if q else 1]
+        # huge values cut after 20..40 digits and written in scientific form: big-integer path with a POSITIVE residual exponent
+        for ef in rng.sample(range(F.bias + 70, F.emaxfield), 16 if q else 60):
+            M, k = F.midpoint((ef << F.mbits) | rng.getrandbits(F.mbits))
+            ds, e10 = gen.exact_decimal(M, k)
+            t = rng.choice([20, 21, 25, 30, 40])
+            if len(ds) > t:
+                inputs.append(gen.mk(F.name, ds[:1], ds[1:t], e10 + len(ds) - 1, "C16:huge-sci"))
     inputs = gen.normalise(gen.dedup(inputs))
     cfgs = ["std", "std+compact"] if q else ["std", "std+compact", "std+alloc", "none"]
     nthreads = 8
@@ -1043,6 +1050,22 @@ def c16(tier):
         for t, evs in sorted(per.items()):
             evs.sort(key=lambda e: e["seq"])
             threads.append({"thread": t, "events": [{"id": e["id"], "seq": e["seq"], "shape": e["shape"], "kind": e["kind"], "bits": e["bits"]} for e in evs]})
+        # contention phase: every thread hammers its OWN big-integer-path inputs (different inputs in different threads
+        # at the same time); inputs are chosen by the path the hook reported in the baseline run
+        slow = [o for o in core.read_ndjson(base) if o.get("path") == "slow"]
+        hot = [r for r in inputs if r["id"] in {o["id"] for o in slow}]
+        hot = hot[:: max(1, len(hot) // 48)][:48]
+        if len(hot) >= nthreads:
+            hi = os.path.join(wd, "hot-in.ndjson")
+            core.write_ndjson(hi, [{k: v for k, v in r.items() if k != "tag"} for r in hot])
+            ho = os.path.join(wd, "hot-out-%s.ndjson" % cfg.replace("+", "_"))
+            core.run([os.path.join(bindir, "run_parse"), "--in", hi, "--out", ho, "--threads", str(nthreads), "--hammer", "150" if q else "1500"], timeout=1800)
+            per2 = collections.defaultdict(list)
+            for o in core.read_ndjson(ho):
+                per2[o["thread"]].append(o)
+            for t, evs in sorted(per2.items()):
+                evs.sort(key=lambda e: e["seq"])
+                threads.append({"thread": 200 + t, "events": [{"id": e["id"], "seq": e["seq"], "shape": e["shape"], "kind": e["kind"], "bits": e["bits"]} for e in evs]})
         ep = os.path.join(wd, "events-%s.ndjson" % cfg.replace("+", "_"))
         bp = os.path.join(wd, "baseline-%s.ndjson" % cfg.replace("+", "_"))
         core.write_ndjson(ep, threads)
@@ -1061,7 +1084,7 @@ def c16(tier):
         nevents += sum(len(t["events"]) for t in threads)
     cov = {
         "states": mc.distinct + tstates, "transitions": mc.generated + ttrans,
-        "traces_validated_against_impl": len(cfgs) * (nthreads + 1), "evaluations": nevents,
+        "traces_validated_against_impl": len(cfgs) * (2 * nthreads + 1), "evaluations": nevents,
         "distinct_nontrivial": len(inputs) * 7,
         "rule": "MC_Calls: 3 threads x 2 inputs x every initial stack content x every interleaving, up to 2 calls per thread; the two "
                 "failure designs (shared scratch buffer, length set before the cells are written) must each violate an invariant. "
